@@ -54,7 +54,18 @@ def generate(repo_dir):
         raise ValueError('populate: phases %r' % (phases,))
 
     # build_metamodel: m = xtuml.MetaModel(id_generator); self.populate(m); return m
-    bm = [ast.unparse(st) for st in _strip_doc(_method(tree, 'ModelLoader', 'build_metamodel').body)]
+    bm_body = _strip_doc(_method(tree, 'ModelLoader', 'build_metamodel').body)
+    # the names of the LOCAL variables carry no meaning: v0, v1, … in the order in which they are first bound
+    bound = {}
+    for st in bm_body:
+        for node in ast.walk(st):
+            if isinstance(node, ast.Name) and isinstance(node.ctx, ast.Store):
+                bound.setdefault(node.id, 'v%d' % len(bound))
+
+    class _Rename(ast.NodeTransformer):
+        def visit_Name(self, node):
+            return ast.copy_location(ast.Name(id=bound.get(node.id, node.id), ctx=node.ctx), node)
+    bm = [ast.unparse(_Rename().visit(st)) for st in bm_body]
     # input: lexer creation / bookkeeping, then `s = self.parser.parse(...)`, then `self.statements.extend(s)`
     inp = _strip_doc(_method(tree, 'ModelLoader', 'input').body)
     steps = []
